@@ -716,7 +716,13 @@ def make_api_module(I, registry):
     @nf("set_suspend_hook")
     def _set_susp(I_, args, kw):
         f = args[0]
-        I_.ctx.suspend_hook = (lambda I2, what: I2.call(f, [what], {})) if f is not None else None
+
+        def hook(I2, what):
+            r = I2.call(f, [what], {})
+            if type(r).__name__ == "CoroutineObj":
+                # an `async def` hook: another task runs to its own next suspension... here: to completion, inline
+                I2.run_coroutine(r)
+        I_.ctx.suspend_hook = hook if f is not None else None
 
     @nf("cancel_here")
     def _cancel(I_, args, kw):
